@@ -243,7 +243,7 @@ pub fn run(args: &[String]) {
     }
     // seeded random DAGs (guard: shapes outside the TLA+ enumeration)
     let n = flag_u(args, "--random", 0);
-    let cfg = GenCfg { div: false, mul_max_w: 200, arrays: true };
+    let cfg = GenCfg::wide(false, 200);
     for i in 0..n {
         let mut ctx = Context::default();
         let widths = [1u32, 2, 3, 4, 8, 31, 32, 33, 63, 64, 65, 127, 128, 129];
